@@ -62,7 +62,7 @@ def rule_R1_R2(ctx, f):
     ctx.rule("R2", "strict increase: for adjacent elements (i, i+1 from one enumeration) the pair is rejected unless a < b — Ge(a,b) true->Err, Lt(a,b) false->Err, or mirrored — "
                    "and the test runs for every i < len-1")
     loops = bucket_loops(b)
-    ctx.ob("R1", "gate|element-loop", len(loops) == 1 and (loops[0][5][1] == ["windows"] or not [a for a in loops[0][5][1] if a not in ("iter", "into_iter", "enumerate")]) if loops else False,
+    ctx.ob("R1", "gate|element-loop", len(loops) == 1 and (loops[0][5][1] == ["windows"] or not [a for a in loops[0][5][1] if a not in ("iter", "into_iter", "enumerate", "copied", "cloned", "peekable", "by_ref")]) if loops else False,
            "check_and_adjust_buckets must iterate all elements of the bucket list in one loop (found %d loops)" % len(loops), site=b.raw["span"]["at"])
     if len(loops) != 1:
         return
@@ -165,6 +165,7 @@ def rule_R1_R2(ctx, f):
     # ---- R2
     pair = None
     via_get = []
+    via_peek = []
     for bi in b.reach(body_entry, avoid_blocks=[n.bb]):
         be = b.bool_edges(bi)
         if not be or be[0][0] != "binop" or be[0][1] not in ("Lt", "Le", "Gt", "Ge"):
@@ -175,6 +176,12 @@ def rule_R1_R2(ctx, f):
             if isinstance(elem, tuple) and elem and elem[0] == "win":
                 return is_elem_value(t, ("win", elem[1], 1))
             t = peel(t, transparent=["Index::index"]) if False else peel(t)
+            # `it.peek()` on the peekable iterator that drives the loop: the element after the current one (None after the last: the Some arm is the `i + 1 < len` guard)
+            if isinstance(t, tuple) and len(t) == 3 and t[0] == "field" and isinstance(t[1], tuple) and t[1][0] == "downcast" and t[1][2] == "Some":
+                g_ = peel(t[1][1], transparent=[])
+                if is_call(g_, "Peekable::peek") and peel(g_[2][0]) == peel(n.args[0]):
+                    via_peek.append(g_)
+                    return True
             # buckets.get(i + 1) -> Some(next): the Some arm is itself the `i + 1 < len` guard
             if isinstance(t, tuple) and len(t) == 3 and t[0] == "field" and isinstance(t[1], tuple) and t[1][0] == "downcast" and t[1][2] == "Some":
                 g_ = peel(t[1][1], transparent=[])
@@ -243,6 +250,14 @@ def rule_R1_R2(ctx, f):
             gc = [c for c in b.calls() if c.bb == via_get[0][3]]
             # the lookup of the successor happens for every element that passed the NaN test
             g_ok = len(gc) == 1 and b.all_paths_pass(body_entry, [gc[0].bb], dst_set={n.bb})
+        if via_peek and not g_ok:
+            pc = [c for c in b.calls() if c.bb == via_peek[0][3]]
+            si_p = b.switch_info(pc[0].target) if len(pc) == 1 and pc[0].target is not None else None
+            some_p = [t for v, t in si_p[1] if v == 1] if si_p and si_p[0] == ("discr", pc[0].result_term()) else []
+            # every element is followed by a peek, and whenever there is a successor the comparison runs before the next element is taken
+            g_ok = len(pc) == 1 and bool(some_p) and b.all_paths_pass(body_entry, [pc[0].bb], dst_set={n.bb}) and b.all_paths_pass(some_p[0], [bi], dst_set={n.bb}) \
+                and len([c for c in b.calls_to(["Iterator::next", "Peekable::next_if", "Peekable::next_if_eq", "Iterator::nth", "Iterator::skip", "Iterator::step_by", "Iterator::advance_by"])
+                         if peel(c.args[0]) == peel(n.args[0])]) == 1
         ctx.ob("R2", "gate|all-pairs", g_ok, "the adjacent-pair test must run for every i < len-1 (guard `i < len - 1` or `i + 1 < len`)", site=b.span_of_block(bi))
 
 
